@@ -508,7 +508,11 @@ def st_history_config(max_groups: int = 3, max_params: int = 4, max_numel: int =
                     # dampening / nesterov come with momentum
                     g["inherit"] = sorted(set(g["inherit"]) | {"dampening", "nesterov"})
             groups.append(g)
-        return {"groups": groups, "pseed": draw(st.integers(0, 10**6))}
+        c = {"groups": groups, "pseed": draw(st.integers(0, 10**6))}
+        gb = draw(st.sampled_from([None, None, None, "rowsparse", "rowsparse", "onehot", "sparse", "rank1"]))
+        if gb is not None:
+            c["gbias"] = gb  # most steps of this history use one structured gradient kind (stable sparsity patterns, sticky diagonal flags)
+        return c
 
     return config()
 
@@ -516,4 +520,4 @@ def st_history_config(max_groups: int = 3, max_params: int = 4, max_numel: int =
 def st_history_step(runner: OptRunner, **kw: Any):
     n = sum(len(g["shapes"]) for g in runner.groups)
     gscale = runner.groups[0]["cfg"].get("gscale", 1.0)
-    return gen.st_step(n, gscale, **kw)
+    return gen.st_step(n, gscale, gbias=runner.config.get("gbias"), **kw)
